@@ -97,6 +97,7 @@ def main():
     a = ap.parse_args()
     pid = a.prop
     tier = a.tier if a.tier in ("quick", "thorough") else "quick"
+    os.environ["VX_TIER"] = tier
     seed = int(os.environ.get("VERIF_SEED", "0") or 0)
     if pid not in PROPS:
         print("no check registered for %s" % pid)
